@@ -80,6 +80,22 @@ func (c *ctx) dataPattern(n int, mode int) []byte {
 		for i := range b {
 			b[i] = []byte{0x80, 0x00, 0x7f, 0xff}[i%4]
 		}
+	case 6: // the largest 12.20 value in every 4-byte lane
+		for i := range b {
+			b[i] = []byte{0x7f, 0xff, 0xff, 0xff}[i%4]
+		}
+	case 7: // the largest 16.32 value in every 6-byte lane (fraction word first)
+		for i := range b {
+			b[i] = []byte{0xff, 0xff, 0xff, 0xff, 0x7f, 0xff}[i%6]
+		}
+	case 8: // the smallest values: 80 00 00 00 lanes / 00 00 00 00 80 00 lanes, alternating by length
+		for i := range b {
+			if n%6 == 0 && n%4 != 0 {
+				b[i] = []byte{0, 0, 0, 0, 0x80, 0}[i%6]
+			} else {
+				b[i] = []byte{0x80, 0, 0, 0}[i%4]
+			}
+		}
 	case 4: // plausible reals: small magnitudes
 		for i := range b {
 			b[i] = byte(c.rng.Intn(256))
@@ -216,7 +232,12 @@ func (c *ctx) codecViaClient(count int) {
 			for g := 0; 6*g+5 < n; g++ {
 				d[6*g+4] = []byte{0x80, 0x80, 0x7f, 0xff, 0x81}[c.rng.Intn(5)]
 			}
+			if c.rng.Intn(4) == 0 {
+				d = c.dataPattern(n, 7)
+			}
 			pkt = append(pkt, d...)
+		} else if c.rng.Intn(8) == 0 && pkt[1]&3 == 1 {
+			copy(pkt[3:], c.dataPattern(len(pkt)-3, 6)) // 12.20 maxima
 		}
 		cl := xsens.NewClient(&scriptedPort{r: &chunkReader{data: xsens.NewMessage(xsens.MessageIdentifierMTData2, pkt), final: io.EOF}})
 		var md xsens.MeasurementData
@@ -300,7 +321,7 @@ func init() {
 					id := xsens.DataIdentifier{DataType: t, CoordinateSystem: xsens.CoordinateSystem(coord), Precision: xsens.Precision(prec)}
 					wire := id.Uint16()
 					n := int(id.DataSize())
-					modes := []int{0, 1, 2, 3, 4, 5}
+					modes := []int{0, 1, 2, 3, 4, 5, 6, 7, 8}
 					if coord != 0 && !c.thorough() {
 						modes = []int{2, 5}
 					}
@@ -409,6 +430,19 @@ func init() {
 						data = append(data, set[(k+len(data)/w)%len(set)]...)
 					}
 					c.codecCase(id, id.Uint16(), data[:n])
+				}
+				// a fixed-point field that is cut off is refused (the value is its integer / 2^k, or no value)
+				c.codecTrunc(id, id.Uint16(), c.dataPattern(n-1, 5), n)
+				c.codecTrunc(id, id.Uint16(), c.dataPattern(n-w, 5), n)
+				c.codecTrunc(id, id.Uint16(), c.dataPattern(w/2, 5), n)
+			}
+		}
+		// and every other real-valued type
+		for _, t := range supportedTypes {
+			for prec := 1; prec <= 2; prec++ {
+				id := xsens.DataIdentifier{DataType: t, Precision: xsens.Precision(prec)}
+				if n := int(id.DataSize()); n > 0 && n%(2+2*prec) == 0 {
+					c.codecTrunc(id, id.Uint16(), c.dataPattern(n-1, 5), n)
 				}
 			}
 		}
